@@ -25,7 +25,7 @@ for f in sorted(glob.glob(os.path.join(ROOT, "seeded", "C*", "meta.json"))):
 import sys
 table = "| seed | change | needs | caught by | not caught by | confirmation |\n|---|---|---|---|---|---|\n" + "\n".join(rows)
 if "--design" in sys.argv:
-    # regenerate the block between the markers of DESIGN.md section 11.5
+    # regenerate the block between the markers of DESIGN.md section 11.6
     dp = os.path.join(ROOT, "DESIGN.md")
     d = open(dp).read()
     a, b = "<!-- seed-table:begin -->", "<!-- seed-table:end -->"
